@@ -330,6 +330,29 @@ def must_pass(fn, node_ids, start_block=None):
     return normal_exit_avoiding(fn, fn.entry if start_block is None else start_block, ids, from_block_start=True) is None
 
 
+def carriers(fb, fn, pred, mode='must', depth=0):
+    """Node ids of fn at which an event happens: nodes with pred(fn, node) true, plus calls (on *this) of other member
+    functions of the same class -- extracted private helpers -- whose body performs the event on every normal path
+    (mode 'must') or on some path (mode 'may').  The helper's body is thereby treated as inlined at the call."""
+    out = []
+    for n in list(fn.nodes.values()):
+        if pred(fn, n):
+            out.append(n['id'])
+            continue
+        if n.get('k') != 'call' or depth >= 3 or 'u' not in n or not fn.cls or n.get('rcls') != fn.cls:
+            continue
+        if n.get('recv') is not None and (xroot(fn, n['recv'], free_calls=False) or (None,))[0] != 'this':
+            continue
+        for g in fb.by_usr.get(n['u'], []):
+            if g is fn or not g.has_cfg or g.clsT != fn.clsT:
+                continue
+            sub = carriers(fb, g, pred, mode, depth + 1)
+            if sub and (mode == 'may' or must_pass(g, sub)):
+                out.append(n['id'])
+            break
+    return out
+
+
 def may_repeat(fn, node_ids):
     """Some path executes two of node_ids (or the same one twice)."""
     from .flow import path_search
